@@ -7,6 +7,7 @@ fn main() {
     // keep ckb's own logging quiet unless asked
     let code = match args.engine.as_str() {
         "chain" => engines::chain::run(&args),
+        "pool" => engines::pool::run(&args),
         other => {
             eprintln!("unknown engine {other}");
             3
